@@ -1,1 +1,274 @@
-// placeholder
+// Included at the end of abra_core/src/parse/lexer.rs under cfg(all(kani, abra_verif)).
+// C04 / C29 / C30 / C33: lexer kernels on hand-built character vectors (no String decoding).
+mod verif {
+    #![allow(unused, dead_code, clippy::all, static_mut_refs)]
+    use super::*;
+    use crate::FileProvider;
+    use crate::ast::FileData;
+    use std::path::{Path, PathBuf};
+
+    // ---- hook support: tokenize_file takes its characters from here when set ----
+    static mut CHARS: Option<Vec<char>> = None;
+    pub(super) fn take_chars() -> Option<Vec<char>> {
+        unsafe { CHARS.take() }
+    }
+    fn give_chars(v: Vec<char>) {
+        unsafe { CHARS = Some(v); }
+    }
+
+    struct NoFiles;
+    impl FileProvider for NoFiles {
+        fn search_for_file(&self, _p: &Path, _root: bool) -> Result<FileData, Box<dyn std::error::Error>> {
+            Err(Box::new(std::fmt::Error))
+        }
+    }
+    fn mk_ctx() -> (StaticsContext, FileId) {
+        let mut ctx = StaticsContext::new(Box::new(NoFiles));
+        let id = ctx.file_db.add(FileData::new_simple(PathBuf::new(), String::new()));
+        (ctx, id)
+    }
+
+    fn pick(alphabet: &[char]) -> char {
+        let k: usize = kani::any();
+        kani::assume(k < alphabet.len());
+        alphabet[k]
+    }
+    fn mk_lexer(chars: Vec<char>) -> Lexer {
+        Lexer { chars, index: 0, tokens: Vec::with_capacity(4) }
+    }
+
+    // ------------------------------------------------------------------ C30: handle_num
+    // every sequence of exactly 4 chars over {0, 7, _, ., a} that starts with a digit
+    #[kani::proof]
+    #[kani::unwind(8)]
+    fn c30_handle_num() {
+        let al = ['0', '7', '_', '.', 'a'];
+        let c = [pick(&['0', '7']), pick(&al), pick(&al), pick(&al)];
+        let mut v = Vec::with_capacity(4);
+        v.push(c[0]); v.push(c[1]); v.push(c[2]); v.push(c[3]);
+        let mut lx = mk_lexer(v);
+        lx.handle_num();
+        // reference scan: digits/underscores, optionally one '.', digits/underscores
+        let mut want: [char; 4] = ['\0'; 4];
+        let mut wn = 0;
+        let mut p = 0;
+        let mut is_float = false;
+        while p < 4 && (c[p].is_ascii_digit() || c[p] == '_') {
+            if c[p] != '_' { want[wn] = c[p]; wn += 1; }
+            p += 1;
+        }
+        if p < 4 && c[p] == '.' {
+            is_float = true;
+            want[wn] = '.'; wn += 1;
+            p += 1;
+            while p < 4 && (c[p].is_ascii_digit() || c[p] == '_') {
+                if c[p] != '_' { want[wn] = c[p]; wn += 1; }
+                p += 1;
+            }
+        }
+        assert!(lx.tokens.len() == 1, "exactly one token");
+        let tok = &lx.tokens[0];
+        let text: &String = match &tok.kind {
+            TokenKind::IntLit(s) => { assert!(!is_float, "no decimal point => integer literal"); s }
+            TokenKind::FloatLit(s) => { assert!(is_float, "decimal point => float literal"); s }
+            _ => { assert!(false, "a number token"); return; }
+        };
+        let tb = text.as_bytes();
+        assert!(tb.len() == wn, "digit text has the separators removed and nothing else");
+        let mut k = 0;
+        while k < 4 {
+            if k < wn { assert!(tb[k] == want[k] as u8, "digits in source order"); }
+            k += 1;
+        }
+        assert!(tok.span.lo == 0 && tok.span.hi == p, "span covers exactly the consumed characters");
+        assert!(lx.index == p, "scanning resumes right after the literal");
+        kani::cover!(is_float && wn == 3 && p == 4, "req: float with a separator");
+        kani::cover!(!is_float && p == 4, "req: four-char integer");
+        std::mem::forget(lx);
+    }
+
+    // ------------------------------------------------------------------ C30: scan_for_unescaped_delim
+    #[kani::proof]
+    #[kani::unwind(8)]
+    fn c30_scan_for_unescaped_delim() {
+        let al = ['\\', '"', 'a', '\n'];
+        let c = [pick(&al), pick(&al), pick(&al), pick(&al)];
+        let mut v = Vec::with_capacity(5);
+        v.push('"'); v.push(c[0]); v.push(c[1]); v.push(c[2]); v.push(c[3]);
+        let lx = mk_lexer(v);
+        let stop_nl: bool = kani::any();
+        let got = scan_for_unescaped_delim(&lx, 1, &['"'], stop_nl);
+        // reference: walk from offset 1; a backslash escapes the next char
+        let mut want: Option<usize> = None;
+        let mut p = 1;
+        let mut done = false;
+        while p < 5 && !done {
+            let ch = if p == 0 { '"' } else { c[p - 1] };
+            if stop_nl && ch == '\n' { done = true; }
+            else if ch == '\\' { p += 2; }
+            else if ch == '"' { want = Some(p); done = true; }
+            else { p += 1; }
+        }
+        assert!(got == want, "first delimiter that is not escaped by a backslash");
+        kani::cover!(matches!(want, Some(4)), "req: delimiter at the end");
+        kani::cover!(want.is_none() && c[3] == '"', "req: escaped final quote");
+        std::mem::forget(lx);
+    }
+
+    // ------------------------------------------------------------------ C30: process_escapes_into
+    fn format_stub(_a: std::fmt::Arguments<'_>) -> String {
+        // only reached for \xNN, which the alphabet below cannot spell
+        panic!("format! reached")
+    }
+    #[kani::proof]
+    #[kani::unwind(8)]
+    #[kani::stub(alloc::fmt::format, format_stub)]
+    fn c30_process_escapes() {
+        let al = ['\\', 'n', 't', '"', 'a', 'q'];
+        let c = [pick(&al), pick(&al), pick(&al)];
+        let n: usize = kani::any();
+        kani::assume(n <= 3);
+        let (mut ctx, fid) = mk_ctx();
+        let s = process_escapes_into(&c[..n], &mut ctx, fid);
+        // reference unescape
+        let mut want: [char; 3] = ['\0'; 3];
+        let mut wn = 0;
+        let mut errs = 0;
+        let mut p = 0;
+        while p < n {
+            if c[p] == '\\' && p + 1 < n {
+                match c[p + 1] {
+                    'n' => { want[wn] = '\n'; wn += 1; }
+                    't' => { want[wn] = '\t'; wn += 1; }
+                    '"' => { want[wn] = '"'; wn += 1; }
+                    '\\' => { want[wn] = '\\'; wn += 1; }
+                    _ => { errs += 1; }
+                }
+                p += 2;
+            } else {
+                want[wn] = c[p]; wn += 1;
+                p += 1;
+            }
+        }
+        let sb = s.as_bytes();
+        assert!(sb.len() == wn, "decoded length");
+        let mut k = 0;
+        while k < 3 {
+            if k < wn { assert!(sb[k] == want[k] as u8, "decoded text"); }
+            k += 1;
+        }
+        assert!(ctx.errors.len() == errs, "a diagnostic exactly for each unrecognised escape");
+        kani::cover!(errs == 1, "req: unrecognised escape");
+        kani::cover!(wn == 2 && n == 3, "req: one escape and one plain char");
+        std::mem::forget(ctx);
+        std::mem::forget(s);
+    }
+
+    // ------------------------------------------------------------------ C29 / C04 / C33: tokenize_file on fixed-length inputs
+    fn kinds_of(tokens: &Vec<Token>) -> [u8; 6] {
+        // 1 ident, 2 newline, 3 eof, 4 star, 5 slash, 9 other
+        let mut out = [0u8; 6];
+        let mut k = 0;
+        while k < 6 {
+            if k < tokens.len() {
+                out[k] = match &tokens[k].kind {
+                    TokenKind::Ident(_) => 1,
+                    TokenKind::Newline => 2,
+                    TokenKind::Eof => 3,
+                    TokenKind::Star => 4,
+                    TokenKind::Slash => 5,
+                    _ => 9,
+                };
+            }
+            k += 1;
+        }
+        out
+    }
+
+    // `a/*` t `*/b` with t = every string of exactly N chars over {x, *, /, space, newline}
+    // that does not contain the closing delimiter: tokens must be those of `a b`.
+    macro_rules! block_comment_harness {
+        ($name:ident, $n:expr) => {
+            #[kani::proof]
+            #[kani::unwind(12)]
+            fn $name() {
+                let al = ['x', '*', '/', ' ', '\n'];
+                let t = [pick(&al), pick(&al)];
+                let n: usize = $n;
+                // the comment text must not contain `*/`, and must not end in `*` (which would close early with the final `/`)
+                if n == 2 { kani::assume(!(t[0] == '*' && t[1] == '/')); }
+                let mut v = Vec::with_capacity(8);
+                v.push('a'); v.push('/'); v.push('*');
+                if n > 0 { v.push(t[0]); }
+                if n > 1 { v.push(t[1]); }
+                v.push('*'); v.push('/'); v.push('b');
+                give_chars(v);
+                let (mut ctx, fid) = mk_ctx();
+                let tokens = tokenize_file(&mut ctx, fid);
+                let k = kinds_of(&tokens);
+                assert!(tokens.len() == 3 && k[0] == 1 && k[1] == 1 && k[2] == 3, "a block comment is skipped whatever it contains: tokens of `a b`");
+                assert!(ctx.errors.len() == 0, "no diagnostics");
+                kani::cover!(n == 0 || t[0] == '*', "req: comment text with a star");
+                std::mem::forget(ctx);
+                std::mem::forget(tokens);
+            }
+        };
+    }
+    block_comment_harness!(c29_block_comment_0, 0);
+    block_comment_harness!(c29_block_comment_1, 1);
+    block_comment_harness!(c29_block_comment_2, 2);
+
+    // `a//` t newline `b`
+    #[kani::proof]
+    #[kani::unwind(12)]
+    fn c29_line_comment_2() {
+        let al = ['x', '*', '/', ' ', '"'];
+        let t = [pick(&al), pick(&al)];
+        let mut v = Vec::with_capacity(8);
+        v.push('a'); v.push('/'); v.push('/'); v.push(t[0]); v.push(t[1]); v.push('\n'); v.push('b');
+        give_chars(v);
+        let (mut ctx, fid) = mk_ctx();
+        let tokens = tokenize_file(&mut ctx, fid);
+        let k = kinds_of(&tokens);
+        assert!(tokens.len() == 4 && k[0] == 1 && k[1] == 2 && k[2] == 1 && k[3] == 3, "a line comment runs to the end of the line: tokens of `a` newline `b`");
+        assert!(ctx.errors.len() == 0);
+        kani::cover!(t[0] == '"', "req: quote inside a comment");
+        std::mem::forget(ctx);
+        std::mem::forget(tokens);
+    }
+
+    // C04 / C33: any 2 chars over an operator/space alphabet (plus one non-ASCII char): terminates,
+    // last token is Eof, spans are ordered, within the input and non-overlapping.
+    #[kani::proof]
+    #[kani::unwind(12)]
+    fn c04_tokenize_two_chars() {
+        let al = ['a', '1', '.', '-', '=', '/', '*', ' ', '\n', '\\', '#', '!', '<', '|', '_', 'é'];
+        let c = [pick(&al), pick(&al)];
+        let mut v = Vec::with_capacity(2);
+        v.push(c[0]); v.push(c[1]);
+        give_chars(v);
+        let (mut ctx, fid) = mk_ctx();
+        let tokens = tokenize_file(&mut ctx, fid);
+        let n = tokens.len();
+        assert!(n >= 1 && n <= 3, "at most one token per character plus Eof");
+        assert!(matches!(tokens[n - 1].kind, TokenKind::Eof), "token stream ends with Eof");
+        let mut prev_hi = 0;
+        let mut k = 0;
+        while k < 3 {
+            if k + 1 < n {
+                let sp = tokens[k].span;
+                assert!(sp.lo < sp.hi && sp.hi <= 2, "a token's span is non-empty and inside the input");
+                assert!(sp.lo >= prev_hi, "spans do not overlap and are in source order");
+                prev_hi = sp.hi;
+            }
+            k += 1;
+        }
+        assert!(ctx.errors.len() <= 2, "at most one diagnostic per character");
+        kani::cover!(ctx.errors.len() == 1, "req: an unrecognised character");
+        kani::cover!(n == 3, "req: two tokens");
+        std::mem::forget(ctx);
+        std::mem::forget(tokens);
+    }
+
+    include!(concat!(env!("ABRA_VERIF_HARNESS_DIR"), "/lexer_playback.rs"));
+}
